@@ -166,6 +166,14 @@ def eval_image(ctx, case):
             ctx.clause('must-accept')
             ctx.fail('must-accept', dict(case, failing=[klass, cuts], path='wrapper'),
                      {'detected': detected, 'want_format': name})
+        elif verdict == 'reject' and name in ig.sigs(data) and detected not in ('IFE', None):
+            # the unsafe image carries its format's signature but detection hands out another inspector
+            # (e.g. raw): accepting it that way is accepting the unsafe image
+            ctx.clause('must-reject')
+            outcome = sl.safety_outcome(res['wrapper'].format)
+            if classify(outcome) == 'accepted':
+                ctx.fail('must-reject', dict(case, failing=[klass, cuts], path='wrapper'),
+                         {'detected_as': detected, 'signature_present': name, 'outcome': outcome})
     if case.get('cli'):
         eval_cli(ctx, case, data, name, verdict, text_f1, subprocess_too=case.get('cli') == 'subprocess')
 
@@ -225,6 +233,8 @@ def eval_cli(ctx, case, data, name, verdict, text_f1, subprocess_too):
             ctx.fail('must-accept', dict(case, path='cli'), {'status': status, 'library': lib})
     elif verdict == 'accept' and not text_f1:
         ctx.fail('must-accept', dict(case, path='cli'), {'detected': detected, 'want_format': name})
+    elif verdict == 'reject' and status == 0 and name in ig.sigs(data):
+        ctx.fail('must-reject', dict(case, path='cli'), {'status': 0, 'detected_as': detected, 'signature_present': name})
     if subprocess_too:
         env = dict(os.environ)
         env['PYTHONPATH'] = os.environ.get('VERIF_REPO', '/repo')
